@@ -32,7 +32,7 @@ ASSUMPTIONS = ['direct execution of the instruction list on ndarray / UTPM opera
                'comparison is rtol 1e-13 (bit-identical in practice; the count of non-bit-identical results is reported)']
 
 DEPTH = {'quick': 2, 'thorough': 3}
-REC_KINDS = ['nd', 'u11', 'u22', 'u11+pause']
+REC_KINDS = ['nd', 'u11', 'u22', 'u11+pause', 'u11+interleave']
 INPUTS = [('nd', 0), ('nd', 1), ('u11', 0), ('u22', 0), ('u31', 1)]
 CHUNK = 30
 
@@ -89,9 +89,11 @@ class Log(object):
         self.orig = Function.__dict__['pushforward']
         orig_f = self.orig.__func__
         log = self.calls
+        self_log = self
+        self.only = None
 
         def wrapped(cls, func, Fargs, Fkwargs={}, Fout=None, setitem=None):
-            if Fout is None and cls.cgraph is not None:
+            if Fout is None and cls.cgraph is not None and (getattr(self_log, 'only', None) is None or cls.cgraph is self_log.only):
                 log.append(getattr(func, '__name__', str(func)))
             return orig_f(cls, func, Fargs, Fkwargs, Fout, setitem) if Fkwargs else orig_f(cls, func, Fargs, Fout=Fout, setitem=setitem)
         Function.pushforward = classmethod(wrapped)
@@ -101,7 +103,34 @@ class Log(object):
         Function.pushforward = self.orig
 
 
-def pauser(cg, pause, probe):
+_OTHER = {}
+
+
+def other_graph():
+    """a second graph, recorded and switched off BEFORE the graph under test is created"""
+    Function.cgraph = None
+    cg2, x2, y2 = PR.record(PR.SCENARIOS['view1'], np.array(PR.POINTS[2], dtype=float))
+    return cg2
+
+
+def pauser(cg, pause, probe, other=None):
+    if other is not None:
+        # recording mode 'interleave at k': while the graph under test is recording, a previously recorded (switched-off)
+        # graph is re-evaluated and differentiated; recording of the graph under test must simply go on
+        def before_i(k, regs):
+            if k == pause:
+                n = len(cg.functionList)
+                other.function([np.array(PR.POINTS[1], dtype=float)])
+                other.gradient(np.array(PR.POINTS[0], dtype=float))
+                if len(cg.functionList) != n:
+                    raise AssertionError('recorded-while-off')
+                if Function.cgraph is not cg:
+                    raise AssertionError('recording-target-changed')
+        return before_i
+    return pauser_plain(cg, pause, probe)
+
+
+def pauser_plain(cg, pause, probe):
     """recording mode 'pause at k': before instruction k recording is switched off, an operation is executed on
     traced operands (it must not be recorded) and recording is resumed on the same graph"""
     if pause is None:
@@ -118,25 +147,28 @@ def pauser(cg, pause, probe):
     return before
 
 
-def record_plain(prog, x0, pause=None):
+def record_plain(prog, x0, pause=None, interleave=False):
+    other = other_graph() if interleave else None
     Function.cgraph = None
     cg = CGraph()
     x = Function(x0)
-    y, regs = PR.run(prog, x, before=pauser(cg, pause, x))
+    y, regs = PR.run(prog, x, before=pauser(cg, pause, x, other))
     cg.trace_off()
     cg.independentFunctionList = [x]
     cg.dependentFunctionList = [y]
     return cg, x, y
 
 
-def record_checked(prog, x0, stats, pause=None):
+def record_checked(prog, x0, stats, pause=None, interleave=False):
     """record with logging; returns (cg, x, y, failures[list of (kind, detail)])"""
     fails = []
+    other = other_graph() if interleave else None
     Function.cgraph = None
     with Log() as lg:
         cg = CGraph()
         x = Function(x0)
-        y, regs = PR.run(prog, x, before=pauser(cg, pause, x))
+        lg.only = cg
+        y, regs = PR.run(prog, x, before=pauser(cg, pause, x, other))
         cg.trace_off()
     cg.independentFunctionList = [x]
     cg.dependentFunctionList = [y]
@@ -188,6 +220,8 @@ def split_kind(reckind):
     """'u11' -> ('u11', None) ; 'u11+pause' -> ('u11', 'last')"""
     if reckind.endswith('+pause'):
         return reckind[:-6], 'last'
+    if reckind.endswith('+interleave'):
+        return reckind[:-11], 'interleave'
     return reckind, None
 
 
@@ -199,7 +233,7 @@ class Sys(object):
     def __init__(self, prog, reckind, seed):
         rk, pause = split_kind(reckind)
         x0 = make_input(rk, 3, seed)
-        self.cg, self.x, self.y = record_plain(prog, x0, pause_index(prog, pause))
+        self.cg, self.x, self.y = record_plain(prog, x0, pause_index(prog, pause), interleave=(pause == 'interleave'))
 
 
 def state_key(sys_):
@@ -226,11 +260,11 @@ def explore_program(prog, reckind, tier, seed, only_history=None):
     except Exception:
         return None, {'skip': 'forward_unsupported'}, stats
     try:
-        cg, x, y, rfails = record_checked(prog, x0, stats, pause_index(prog, pause))
+        cg, x, y, rfails = record_checked(prog, x0, stats, pause_index(prog, pause), interleave=(pause == 'interleave'))
     except AssertionError as e:
         Function.cgraph = None
-        if 'recorded-while-off' in str(e):
-            rfails = [('recorded-while-off', {'where': 'between instructions'})]
+        if 'recorded-while-off' in str(e) or 'recording-target-changed' in str(e):
+            rfails = [(str(e), {'where': 'between instructions'})]
             res = EX.Result()
             return res, {'rfails': rfails}, stats
         return None, {'skip': 'untraceable'}, stats
@@ -290,14 +324,14 @@ def explore_program(prog, reckind, tier, seed, only_history=None):
 
 
 def enumerate_programs(tier):
-    progs = [(p, 1) for p in PR.depth1()]
-    core = set(n for n, t in PR.TEMPLATES.items() if 'core' in t.tags)
-    d1_ok = [p for p in PR.depth1() if PR.in_domain(p, PR.POINTS[:1]) is None]
+    progs = [(p, 1) for p in PR.depth1(fancy=True)]
+    core = set(n for n, t in PR.TEMPLATES.items() if 'core' in t.tags or 'fancy' in t.tags)
+    d1_ok = [p for p in PR.depth1(fancy=True) if PR.in_domain(p, PR.POINTS[:1]) is None]
     d2 = []
     for p in d1_ok:
         if tier == 'quick' and p[0][0] not in core:
             continue
-        d2 += PR.extend(p, names=core if tier == 'quick' else None)
+        d2 += PR.extend(p, names=core if tier == 'quick' else None, fancy=True)
     progs += [(q, 2) for q in d2]
     if tier == 'thorough':
         vb = set(n for n, t in PR.TEMPLATES.items() if t.tags & {'view', 'buf'})
@@ -311,9 +345,15 @@ def enumerate_programs(tier):
 def units(tier, seed):
     progs = enumerate_programs(tier)
     us = []
+    vb = set(n for n, t in PR.TEMPLATES.items() if t.tags & {'view', 'buf'})
     for rk in REC_KINDS:
-        for i in range(0, len(progs), CHUNK):
-            us.append({'progs': progs[i:i + CHUNK], 'reckind': rk, 'tier': tier, 'seed': seed})
+        sel = progs
+        if tier == 'quick' and '+' in rk:
+            # pause/resume and interleaved-graph recording modes: depth <= 1, scenarios, and depth-2 programs that start
+            # with a view or buffer instruction (full program set in the thorough tier)
+            sel = [(p, d) for (p, d) in progs if d <= 1 or p[0][0] in vb]
+        for i in range(0, len(sel), CHUNK):
+            us.append({'progs': sel[i:i + CHUNK], 'reckind': rk, 'tier': tier, 'seed': seed})
     return us
 
 
